@@ -22,7 +22,7 @@ COMPONENTS = {"real": ["workflows.* engine, BrokerState.to_serialized/from_seria
               "stub": ["llama_index_instrumentation"], "sim": ["loop, clock, snapshot/resume driver"]}
 ASSUMPTIONS = ["the abandoned incarnation is hard-stopped at the snapshot instant; what it still does afterwards is ignored",
                "an invocation interrupted by the snapshot does not count against the retry budget; completed (failed) attempts do"]
-EXPECTED_PROBES = ["twin-deliveries", "snapshot-with-inflight", "snapshot-with-queued", "snapshot-with-pending-retry", "inflight-had-attempts", "snapshot-with-delayed-retry-pending"]
+EXPECTED_PROBES = ["roundtrip-with-waiter", "roundtrip-with-requirement-waiter", "roundtrip-with-collected-events", "twin-deliveries", "snapshot-with-inflight", "snapshot-with-queued", "snapshot-with-pending-retry", "inflight-had-attempts", "snapshot-with-delayed-retry-pending"]
 LEVEL_TEXT = ("Seeded exploration of snapshot instants x programs, differential against the uninterrupted run on the same tape, "
               "plus a budget count over both incarnations and a serialize/deserialize fixpoint check of the snapshot itself.")
 LEVEL_NOTE = "Trusted: simulator loop; determinism-by-construction of the generated programs (path ids, idempotent writes)."
@@ -244,10 +244,38 @@ def _roundtrip(world, spec, outcome, js) -> None:
         world.violate("C12.roundtrip-unstable", f"deserialize(serialize(deserialize(x))) != deserialize(x) at {diff}: {[(a[k], b[k]) for k in diff][:2]}", how="differs")
 
 
+# round-trip arm: general generated programs (waiters with and without requirements, collect buffers, retries, external
+# responders) snapshotted at a tape-chosen instant; only the serialized form's fixpoint is judged here (their results are
+# schedule-dependent, so there is no reference run)
+RT_CFG = {"driver": "finish", "p_wait": 60, "p_collect": 35, "p_retry": 25, "p_fail": 15, "p_wait_self": 15, "p_resp_step": 15,
+          "n_work": (1, 3), "n_types": (1, 3), "fan_max": 3, "wait_timeouts": [None, "default", 3, 6]}
+
+
+def _rt_check(world, spec, outcome) -> None:
+    js = outcome.get("snapshot") if outcome else None
+    world._nt = False
+    if js is None:
+        return
+    w = js.get("workers", {})
+    if any(v.get("collected_waiters") for v in w.values()):
+        world.probe("roundtrip-with-waiter")
+        world._nt = True
+        if any(x.get("has_requirements") for v in w.values() for x in v.get("collected_waiters", [])):
+            world.probe("roundtrip-with-requirement-waiter")
+    if any(any(b for b in (v.get("collected_events") or {}).values()) for v in w.values()):
+        world.probe("roundtrip-with-collected-events")
+        world._nt = True
+    _roundtrip(world, spec, outcome, js)
+
+
 def run(tape):
+    if tape.draw(4, "c12.arm") == 0:
+        res = simulate(tape, RT_CFG, _rt_check, scenario=drive_resume, nontrivial=lambda w, s, o: getattr(w, "_nt", False))
+        res["evals"] = 1
+        return res
     res1 = simulate(tape, CFG, check, gen=gen, scenario=drive_resume, nontrivial=lambda w, s, o: w._nt)
     s1, resumed = _LAST.get("summary"), _LAST.get("resumed")
-    t2 = Tape(replay=list(tape.values))
+    t2 = Tape(replay=list(tape.values)[1:])     # the reference consumes the same draws, minus the leading arm draw
     comp1 = _LAST.get("completions") or {}
 
     def _ref(w, s, o):
